@@ -29,6 +29,11 @@ func guar(prop, fn string, p []string, facts ...string) {
 	allGuars = append(allGuars, &Guar{Prop: prop, Fn: fn, P: p, Facts: facts})
 }
 
+// guarP: abstract facts for callers, concrete proof obligations for the function itself.
+func guarP(prop, fn string, p []string, facts []string, proof []string) {
+	allGuars = append(allGuars, &Guar{Prop: prop, Fn: fn, P: p, Facts: facts, Proof: proof})
+}
+
 func paramTerms(fi *FuncInfo, names []string) Bind {
 	b := Bind{}
 	if fi.Sig == nil {
@@ -40,6 +45,11 @@ func paramTerms(fi *FuncInfo, names []string) Bind {
 	}
 	for i := 0; i < fi.Sig.Params().Len(); i++ {
 		vars = append(vars, fi.Sig.Params().At(i))
+	}
+	for i := 0; i < fi.Sig.Results().Len(); i++ {
+		if r := fi.Sig.Results().At(i); r.Name() != "" && r.Name() != "_" {
+			vars = append(vars, r)
+		}
 	}
 	for i, n := range names {
 		if n == "" || i >= len(vars) {
@@ -76,7 +86,11 @@ func RunE1(c *Ctx, prop string, obs []Ob) {
 		if g.Prop != prop {
 			continue
 		}
-		obs = append(obs, Ob{ID: "E1.guarantee", Fn: g.Fn, P: g.P, Kind: "ret ok", Req: g.Facts, Why: "callers assume these facts on the success edge of " + g.Fn})
+		req := g.Proof
+		if len(req) == 0 {
+			req = g.Facts
+		}
+		obs = append(obs, Ob{ID: "E1.guarantee", Fn: g.Fn, P: g.P, Kind: "ret ok", Req: req, Why: "callers assume these facts on the success edge of " + g.Fn})
 	}
 	obs = append(obs, e1Controls()...)
 	for _, ob := range obs {
